@@ -308,6 +308,7 @@ public:
 
 		if(timer_events_index_.size() < 1000) {
 			timer_events_index_.resize(1000,end);
+			timer_events_generation_.resize(1000,0);
 		}
 
 		int attempts = 0;
@@ -321,6 +322,7 @@ public:
 				// this must be empty so stop looping
 				pos = timer_events_index_.size();
 				timer_events_index_.resize(timer_events_index_.size()*2,end);
+				timer_events_generation_.resize(timer_events_index_.size(),0);
 			}
 			ev.second.event_id = pos;
 			timer_events_index_[pos] = timer_events_.insert(ev);
@@ -329,15 +331,19 @@ public:
 
 		if(polling_ && timer_events_.begin()->first >= point)
 			wake();
-		return ev.second.event_id;
+		// the slot is reused by later timers, the generation tells them apart
+		return ev.second.event_id | ((timer_events_generation_[ev.second.event_id] & 0x7FFF) << 16);
 	}
 
-	void cancel_timer_event(int event_id)
+	void cancel_timer_event(int id)
 	{
 		lock_guard l(data_mutex_);
 
+		int event_id = id & 0xFFFF;
 		if(timer_events_index_.at(event_id)==timer_events_.end())
 			return;
+		if(((id >> 16) & 0x7FFF) != (timer_events_generation_[event_id] & 0x7FFF))
+			return; // that timer is gone, the slot belongs to another one now
 
 		timer_events_type::iterator evptr = timer_events_index_[event_id];
 		
@@ -345,6 +351,7 @@ public:
 		dispatch_queue_.push_back(evdisp);
 		timer_events_.erase(evptr);
 		timer_events_index_[event_id]=timer_events_.end();
+		timer_events_generation_[event_id]++;
 
 		if(polling_)
 			wake();
@@ -494,6 +501,7 @@ private:
 	//
 	timer_events_type timer_events_;
 	timer_events_index_type timer_events_index_;
+	std::vector<unsigned> timer_events_generation_;
 
 	//
 	// Random number generator
@@ -577,6 +585,7 @@ private:
 		while(!stop_ && !timer_events_.empty() && timer_events_.begin()->first <= now) {
 			timer_events_type::iterator evptr = timer_events_.begin();
 			timer_events_index_[evptr->second.event_id] = timer_events_.end();
+			timer_events_generation_[evptr->second.event_id]++;
 			completion_handler disp(evptr->second.h,system::error_code());
 			dispatch_queue_.push_back(disp);
 			timer_events_.erase(evptr);
